@@ -12,7 +12,7 @@ From V Require Import base.Cal gen.RrTables rr.RRBase rr.RRNorm rr.RRMasks rr.RR
   rr.RRSubAdvance rr.RRSetposThm rr.RRCoarseRun rr.RRMonthlyFullThm rr.RRMonthlyNthThm rr.RRYearlyFullThm
   rr.RRDailyFullThm rr.RRWeeklySetposThm rr.RRYearlyMonthNthThm rr.RRSortedThm rr.RRCoarseTop rr.RRNoRaise rr.RRStripThm rr.RRStripSubThm rr.RRValidThm rr.RRCompleteThm
   rr.RRSubSpBase rr.RRSubSpPass rr.RRSubSpFam rr.RRSubSpSame rr.RRSubSpAll rr.RRSubSorted rr.RRSubSpOrder rr.RRSubSpTerm
-  rr.RRAllFreqTop rr.RRDailyEasterThm rr.RRWeeklyEasterThm rr.RREasterTop rr.RRWkEasterStrip.
+  rr.RRAllFreqTop rr.RRDailyEasterThm rr.RRWeeklyEasterThm rr.RREasterTop rr.RRWkEasterStrip rr.RRNthEasterThm rr.RRFullTop.
 Import ListNotations.
 Open Scope Z_scope.
 
@@ -1054,20 +1054,36 @@ Print Assumptions C01_day_filter_correct_extension_easter.
 
 (* ... and without the BYDAY restriction for WEEKLY / DAILY (numeric prefixes are ignored there; builder rset,
    RRWkEasterStrip.v) *)
-Theorem C01_rrule_iter_correct_easter_headline_all_partial : forall r rl limit n,
+(* C01_rrule_iter_correct_easter_headline_all_partial: superseded by C01_rrule_iter_correct_full_headline_partial below *)
+
+(* ==== THE HEADLINE for FREQ in YEARLY..DAILY, with and without BYEASTER, in ONE statement: for every rule of the
+   specification's domain with BYWEEKNO within the RFC range,
+     - without BYEASTER: YEARLY / MONTHLY / DAILY every rule and every fuel; WEEKLY for the n passes whose weeks end
+       within 9999-12-31 and, with BYSETPOS, a first week that does not begin before 0001-01-01;
+     - with BYEASTER (dateutil extension): the start's year and the year of each of the n passes inside the range of
+       C19's Easter theorem, 1583..4098 (WEEKLY: 1584..4097, the cross-year week needs next year's Easter);
+   everything else -- COUNT, UNTIL, INTERVAL, WKST, BYSETPOS, BYMONTH, BYMONTHDAY, BYYEARDAY, BYWEEKNO, BYDAY plain /
+   nth / with numeric prefixes where the code ignores them, BYHOUR / BYMINUTE / BYSECOND -- is free:
+   the model of rrule.__init__ / _iter / _iterinfo yields exactly the specification's sequence at equal fuel. *)
+Theorem C01_rrule_iter_correct_full_headline_partial : forall r rl limit n,
   normalize r = Ok rl ->
-  spec_wf r = true /\ all_opt (r_byweekno r) weekno_safe = true /\
-  ((r_freq r = YEARLY /\ plain_only r = true /\ 1583 <= r_y r <= 4098 /\
-    forall j, 0 <= j < Z.of_nat n -> r_y r + (j + 1) * r_interval r <= 4098) \/
-   (r_freq r = MONTHLY /\ plain_only r = true /\ 1583 <= r_y r <= 4098 /\
-    forall j, 0 <= j < Z.of_nat n -> midx r (j + 1) / 12 <= 4098) \/
-   (r_freq r = WEEKLY /\ (r_bysetpos r <> None -> 1 <= ws0 r) /\ 1584 <= r_y r /\ r_y r + 1 <= 4098 /\
-    (n <> 0%nat -> wlo r (Z.of_nat n) <= we_last)) \/
-   (r_freq r = DAILY /\ 1583 <= r_y r <= 4098 /\
-    (n <> 0%nat -> sp_ord0 r + Z.of_nat n * r_interval r <= e_last))) ->
+  (spec_wf r = true /\ all_opt (r_byweekno r) weekno_safe = true /\ r_byeaster r = None /\
+   (r_freq r = YEARLY \/ r_freq r = MONTHLY \/
+    (r_freq r = WEEKLY /\ (r_bysetpos r <> None -> 1 <= ws0 r) /\
+     (n <> 0%nat -> wlo r (Z.of_nat n - 1) + 6 <= max_ord)) \/
+    r_freq r = DAILY)) \/
+  (spec_wf r = true /\ all_opt (r_byweekno r) weekno_safe = true /\
+   ((r_freq r = YEARLY /\ 1583 <= r_y r <= 4098 /\
+     forall j, 0 <= j < Z.of_nat n -> r_y r + (j + 1) * r_interval r <= 4098) \/
+    (r_freq r = MONTHLY /\ 1583 <= r_y r <= 4098 /\
+     forall j, 0 <= j < Z.of_nat n -> midx r (j + 1) / 12 <= 4098) \/
+    (r_freq r = WEEKLY /\ (r_bysetpos r <> None -> 1 <= ws0 r) /\ 1584 <= r_y r /\ r_y r + 1 <= 4098 /\
+     (n <> 0%nat -> wlo r (Z.of_nat n) <= we_last)) \/
+    (r_freq r = DAILY /\ 1583 <= r_y r <= 4098 /\
+     (n <> 0%nat -> sp_ord0 r + Z.of_nat n * r_interval r <= e_last)))) ->
   fst (iterate rl limit n) = fst (spec_iter r limit n).
-Proof. exact rrule_iter_correct_coarse_easter_all. Qed.
-Print Assumptions C01_rrule_iter_correct_easter_headline_all_partial.
+Proof. exact rrule_iter_correct_coarse_full. Qed.
+Print Assumptions C01_rrule_iter_correct_full_headline_partial.
 
 (* ==== C01_gen_* blocks (translators: gen_rr_init / gen_rr_masks / gen_rr_iter) go BELOW this line; rr adds nothing after it ==== *)
 
